@@ -15,7 +15,7 @@ NA = {
 "C17":"introspection by a single-threaded navigator; the command history is an argument list, no schedule/fault/crash (DESIGN §7)",
 "C18":"writing an older version and reading it with the older definition is a pure function of (definitions, versions, value) (DESIGN §7)",
 }
-PENDING = {k:"not claimed yet: its simulation engine is still under construction in this session (planned: DESIGN §6)" for k in ["C15","C16"]}
+PENDING = {k:"not claimed yet: its simulation engine is still under construction in this session (planned: DESIGN §6)" for k in ["C16"]}
 CHECKS = {
 "C08": dict(engine="simio", cat="exploration", ref="DESIGN §5 (C08)", technique="deterministic simulation: seeded fault injection on the Read/Write seams (short transfers, EINTR, Ok(0), transient/permanent errors, flush errors) + per-offset single-fault enumeration, judged against the fault-free run",
   text="Seeded search over explicit device plans for save and load on five containers with per-run randomised crypto chunk size; plus, per sampled small file, every byte offset as the position of a single hard error / EINTR / 1-byte transfer. Exploration: a clean batch is evidence, not proof.",
@@ -32,6 +32,9 @@ CHECKS = {
 "C09": dict(engine="simabi", cat="exploration", ref="DESIGN §6 (C09)", technique="deterministic simulation: seeded panic injection at numbered fault points of nested ABI calls + simulator-owned executor deciding poll / spurious poll / wake / cancel schedules of boxed futures, refinement against the same plan executed without savefile-abi, drop-ledger conservation, bounded liveness after the last fault",
   text="SCOPED to the fault- and schedule-dependent clauses of C09: a panic in the implementation (or in a callback, boxed closure, boxed trait object or future poll) at any numbered point, with literal / formatted / non-string payloads; what happens to objects in flight; whether the connection stays usable; futures whose polls, wake-ups and cancellation are scheduled by the simulator. The input-space clauses (all signatures, all sizes) are exercised by the workload (sizes straddling the 64-byte inline buffer, a 64-argument method, by-reference and serialized passing) but no input-space claim is made.",
   note="Caller and implementation are compiled together (layouts trivially identical). Only handle objects are in the drop ledger. Tokens in injected messages are [A-Za-z0-9_] so that Debug-escaping cannot hide them. A stale waker (older than the latest poll's) is allowed to be ignored by the executor. Single-threaded (C16 covers threads)."),
+"C15": dict(engine="simledger", cat="exploration", ref="DESIGN §6 (C15)", technique="deterministic simulation of run histories: each run of verify_compatiblity is a restart over the surviving ledger directory; results and directory contents checked against a reference model (map version -> recording revision, hand-written per-version signatures) over all ordered revision pairs and seeded histories",
+  text="25 hand-written revisions in 4 chains (plain data with versioned fields / enum variants / AbiRemoved, #[async_trait], closures + boxed traits + boxed futures, and the repository's own interface whose ledger was written by an earlier build), with breaking siblings for every clause of the statement (removed method, argument count, argument type, return type, async-ness, nested closure / callback / future types, unversioned field, version-1-only break). Every ordered pair as [a,a,b,b] plus seeded histories; result must match the model, recorded files are write-once and correctly named.",
+  note="No I/O fault is injected (the statement gives no expected outcome for a torn ledger file): the explored dimension is the history of restarts. Labels are hand-written signature texts. A share of thorough histories runs every step in a fresh child process."),
 }
 def hook_commits():
     out = subprocess.run(["git","-C","/repo","log","--format=%h %s","322d5e5..HEAD"],stdout=subprocess.PIPE,text=True).stdout.splitlines()
@@ -41,7 +44,8 @@ m = {"version":1,
  "hooks":{"guard":"savefile_verif (rustc cfg, not a cargo feature)","enable":"RUSTFLAGS='--cfg savefile_verif' (set by /verif/sim/.cargo/config.toml for every build of the simulators)",
    "baseline_off_cmd":"cd /repo && cargo nextest run --workspace --no-fail-fast --tool-config-file pb:/w/lib/nextest.toml --profile pb --test-threads 8 --offline || cargo test --workspace --no-fail-fast --offline",
    "source_commits":hook_commits(),"add_only":False},
- "engines":[{"name":"simabi","path":"sim/simabi","serves_properties":["C09"],"kind_free_text":"single-threaded peer simulator: harness implementation objects / closures / leaf futures with numbered fault points and a drop ledger on both sides of the real generated trampolines; own executor; direct-world reference"},
+ "engines":[{"name":"simledger","path":"sim/simledger","serves_properties":["C15"],"kind_free_text":"run-history simulator over a private ledger directory with a reference model"},
+  {"name":"simabi","path":"sim/simabi","serves_properties":["C09"],"kind_free_text":"single-threaded peer simulator: harness implementation objects / closures / leaf futures with numbered fault points and a drop ledger on both sides of the real generated trampolines; own executor; direct-world reference"},
   {"name":"simio","path":"sim/simio","serves_properties":["C06","C07","C08","C14"],"kind_free_text":"PRNG-planned byte-device simulator over the Read/Write seams + media-fault layer + simulated allocator; process-isolated workers, explicit replayable plans, generic plan minimiser in ./check"}],
  "checks":[],
  "not_applicable":[{"property_id":k,"reason":v} for k,v in sorted({**NA,**PENDING}.items())],
